@@ -34,7 +34,6 @@ func (e *Engine) getValues(ob *Obligation, qs []modelQuery) map[string]string {
 		return out
 	}
 	smt := strings.Replace(ob.SMT, "(set-option :smt.mbqi false)\n(set-option :auto_config false)\n", "", 1)
-	smt = strings.Replace(smt, "(get-model)\n", "", 1)
 	var b strings.Builder
 	b.WriteString(smt)
 	for _, q := range qs {
